@@ -105,3 +105,128 @@ def parser_constants(repo):
 
 
 EXTRACTORS = {"parser_constants": parser_constants}
+
+
+# ------------------------------------------------------------------------------------------------
+# hoisting of items nested in a function body (`//@hoist <file> | <outer fn name> | <item prefix>`)
+#
+# Kani (like any Rust code outside that function) cannot name an item declared inside a function
+# body (`fn partition() { fn pop_expression_bytes(..) {..} .. }`, `fn has_root() { struct IsRooting;
+# impl Fold for IsRooting {..} .. }`). The item's text is copied BYTE-IDENTICALLY from /repo's current
+# source into the generated harness module on every run. What the copy drops: the enclosing function
+# (its body, its `use` declarations unless hoisted too, its generic parameters -- a nested item cannot
+# use them anyway). A lost anchor is UNDECIDED, never an alarm.
+# ------------------------------------------------------------------------------------------------
+def _skip_noncode(text, i):
+    """If text[i:] starts a comment / string / char literal, return the index just after it, else i."""
+    if text.startswith("//", i):
+        j = text.find("\n", i)
+        return len(text) if j < 0 else j
+    if text.startswith("/*", i):
+        depth, j = 1, i + 2
+        while j < len(text) and depth:
+            if text.startswith("/*", j):
+                depth, j = depth + 1, j + 2
+            elif text.startswith("*/", j):
+                depth, j = depth - 1, j + 2
+            else:
+                j += 1
+        return j
+    if text[i] == '"':
+        j = i + 1
+        while j < len(text) and text[j] != '"':
+            j += 2 if text[j] == "\\" else 1
+        return j + 1
+    if text[i] == "r" and re.match(r'r#*"', text[i:]):
+        m = re.match(r'r(#*)"', text[i:])
+        end = text.find('"' + m.group(1), i + len(m.group(0)))
+        return len(text) if end < 0 else end + 1 + len(m.group(1))
+    if text[i] == "'":
+        m = re.match(r"'(\\.[^']*|[^'\\])'", text[i:])  # a char literal; otherwise a lifetime
+        if m:
+            return i + len(m.group(0))
+    return i
+
+
+def _balanced_end(text, start):
+    """start = index of an opening brace; returns the index just after its matching closing brace."""
+    depth, i = 0, start
+    while i < len(text):
+        j = _skip_noncode(text, i)
+        if j != i:
+            i = j
+            continue
+        if text[i] == "{":
+            depth += 1
+        elif text[i] == "}":
+            depth -= 1
+            if depth == 0:
+                return i + 1
+        i += 1
+    raise Undecided("anchor lost: unbalanced braces")
+
+
+def _item_span(text, lo, hi, prefix, what):
+    """the item inside text[lo:hi] whose first line (stripped) starts with `prefix`: (start, end)"""
+    hits = []
+    pos = lo
+    for line in text[lo:hi].split("\n"):
+        if line.strip().startswith(prefix):
+            hits.append(pos)
+        pos += len(line) + 1
+    if len(hits) != 1:
+        raise Undecided(f"anchor lost: {what}: item starting with {prefix!r} occurs {len(hits)} times")
+    start = hits[0]
+    # the item ends at the first `;` or balanced `{..}` (whichever opens first), outside comments / literals
+    i = start
+    while i < hi:
+        j = _skip_noncode(text, i)
+        if j != i:
+            i = j
+            continue
+        if text[i] == ";":
+            return start, i + 1
+        if text[i] == "{":
+            # `use a::{b, c};` -- a brace group inside a use declaration
+            end = _balanced_end(text, i)
+            if text[start:i].strip().startswith("use "):
+                i = end
+                continue
+            return start, end
+        i += 1
+    raise Undecided(f"anchor lost: {what}: item {prefix!r} does not end inside the enclosing function")
+
+
+def hoist(repo, rel, outer, prefix):
+    p = repo / rel
+    if not p.exists():
+        raise Undecided(f"anchor lost: file {rel}")
+    text = p.read_text()
+    heads = [m for m in re.finditer(r"^[ \t]*(?:pub(?:\([^)]*\))?\s+)?fn " + re.escape(outer) + r"\b", text, re.M)]
+    if len(heads) != 1:
+        raise Undecided(f"anchor lost: fn {outer} occurs {len(heads)} times in {rel}")
+    i = heads[0].end()
+    while i < len(text):
+        j = _skip_noncode(text, i)
+        if j != i:
+            i = j
+            continue
+        if text[i] == "{":
+            break
+        if text[i] == ";":
+            raise Undecided(f"anchor lost: fn {outer} in {rel} has no body")
+        i += 1
+    end = _balanced_end(text, i)
+    s, e = _item_span(text, i + 1, end - 1, prefix, f"{rel}::{outer}")
+    line = text.count("\n", 0, s) + 1
+    return (f"// ---- hoisted verbatim from {rel}:{line} (inside fn {outer}) by tools/vextract.py ----\n"
+            + text[s:e] + "\n// ---- end of hoisted item ----")
+
+
+def expand_hoists(src, repo):
+    def rep(m):
+        parts = [x.strip() for x in m.group(1).split("|")]
+        if len(parts) != 3:
+            raise Undecided(f"bad //@hoist directive: {m.group(0)!r}")
+        return hoist(repo, parts[0], parts[1], parts[2])
+    return re.sub(r"^//@hoist (.*)$", rep, src, flags=re.M)
